@@ -93,6 +93,16 @@ SUMMARY = {
  "C17-j": "Invoke.ID taken from the token instead of the Invoke-Id header: the id check compares the token with itself, a direct invoke for another id is accepted",
  "C18-j": "HandleRestore takes the handler mutex: a restore request before the restore poll blocks until init ends instead of returning at once",
  "C19-j": "Terminate returns without signalling when the leader has already exited: members of its group never get the SIGTERM",
+ "C05-k": "FastInvoke returns as soon as rapid reports the reset: nobody receives on sendResponseChan during the teardown, a response posted then blocks with the server mutex held (hang)",
+ "C06-k": "error of the last wait of an invocation (AwaitAgentsReady) logged but not returned (shadowed err): a fault while an INVOKE subscriber is still busy is answered with success, recovery one invocation late",
+ "C07-k": "shutdownAgents counts an agent without exit channel in the WaitGroup before skipping it: the reset after a failed cold start with an extension never ends",
+ "C09-k": "kill deadline min(now+9s, shutdown deadline): at the deadline it is already expired, the supervisor refuses, processes that ignore SIGTERM are never killed",
+ "C11-k": "Clear re-arms through Reset's helper: clearing a cancelled gate keeps the arrivals of the previous generation",
+ "C13-k": "subscription loop moved in front of the state check: a refused second register still merges its events into the subscriptions",
+ "C14-k": "front end reads the event through http.MaxBytesReader: an oversized event is refused with 500 instead of being cut",
+ "C15-k": "extension status lines deferred only after doInitExtensions succeeded: an init that fails during extension launch / registration emits none",
+ "C16-k": "acceptInitRequestForInitCaching reuses acceptInitRequest, which stores the long-term credentials: customer variables with the credential names are overwritten in snapshot mode",
+ "C20-k": "identity string passed through strings.ToValidUTF8 after the budget was computed: isolated non-UTF-8 bytes triple",
  "C04-e": "AwaitRuntimeReady of the invoke flow waits on the response gate: the invocation completes before the runtime asked for next",
  "C11-e": "a cancelled gate whose count is met returns success from AwaitGateCondition",
  "C13-e": "event validation of register only looks at the last element: an illegal event before a legal one registers a ghost / wrong error type",
